@@ -1,7 +1,7 @@
 (* C01 — Two endpoints built on the library interoperate, even across transport loss.
    Statements only.  Nothing else may be added to this file. *)
 From MQ Require Import Base.Prelude Alloc.Alloc Alloc.AllocProofs Framing.Framing Framing.FramingProofs Conn.Types Conn.ConnRecord Conn.Step
-                       Corr.ConnTrace Conn.Scope Conn.Session Conn.IdsQuota Conn.Own Conn.OwnFrame Conn.OwnStep Conn.Run Conn.PairQos Conn.PairQos0 Conn.PairQos5 Conn.PairSeq Conn.PairSeq5 Conn.PairConc Conn.PairBi Conn.PairConc5 Conn.PairBi5 Conn.PairHandshake5 Conn.PairHandshake311 Conn.PairConcIds Conn.PairConcIds5 Conn.PairBiIds Conn.PairBiIds5 Conn.PairQuiescence Conn.PairManual Conn.PairManual5 Conn.PairManualSeq Conn.PairManualSeq5 Conn.PairHandshakeSeq Conn.SessInv Conn.PairLoss Conn.PairLossAcc Conn.PairLossS Conn.PairHandshakeP Conn.PairLossIds Conn.PairLossSIds Conn.PairSeqMixed Conn.PairSeqMixedFresh.
+                       Corr.ConnTrace Conn.Scope Conn.Session Conn.IdsQuota Conn.Own Conn.OwnFrame Conn.OwnStep Conn.Run Conn.PairQos Conn.PairQos0 Conn.PairQos5 Conn.PairSeq Conn.PairSeq5 Conn.PairConc Conn.PairBi Conn.PairConc5 Conn.PairBi5 Conn.PairHandshake5 Conn.PairHandshake311 Conn.PairConcIds Conn.PairConcIds5 Conn.PairBiIds Conn.PairBiIds5 Conn.PairQuiescence Conn.PairManual Conn.PairManual5 Conn.PairManualSeq Conn.PairManualSeq5 Conn.PairHandshakeSeq Conn.SessInv Conn.PairLoss Conn.PairLossAcc Conn.PairLossS Conn.PairHandshakeP Conn.PairLossIds Conn.PairLossSIds Conn.PairSeqMixed Conn.PairSeqMixedFresh Conn.PairSeqMixed2.
 
 (* what the pair property rests on, each proved for ALL states of one endpoint:
    (i) delivery in any fragmentation is the same byte stream (C09) *)
@@ -168,7 +168,7 @@ Print Assumptions C01_pair_mixed_step.
 (* QoS 0 AT MOST ONCE, for any number of them: the run always completes, and the allocator, store, awaited sets (F8) of both
    endpoints and the receiver's handled identifiers are exactly what they were - there is nothing to retransmit from *)
 Theorem C01_pair_qos0_sequence_leaves_nothing : forall gs gr ps cs cr, pair_inv gs cs cr -> Forall (fun p => v311_pub p 0) ps ->
-  exists cs' cr', run_mixed gs gr cs cr ps = Done cs' cr' ps /\ pair_inv gs cs' cr' /\ F8 cs' cs /\ F8 cr' cr /\ c_qos2 cr' = c_qos2 cr.
+  exists cs' cr', run_mixed gs gr cs cr ps = Done cs' cr' ps /\ pair_inv gs cs' cr' /\ F8 cs' cs /\ F8 cr' cr /\ c_qos2 cr' = c_qos2 cr /\ c_qos2 cs' = c_qos2 cs.
 Proof. exact run_mixed_qos0_only. Qed.
 Print Assumptions C01_pair_qos0_sequence_leaves_nothing.
 
@@ -190,6 +190,46 @@ Theorem C01_fresh_v311_mixed_sequence : forall gA gB cn ca ps,
     ran (run_mixed gB gA B2 A2 ps) ps (pair_inv gB).
 Proof. exact fresh_v311_mixed_sequence. Qed.
 Print Assumptions C01_fresh_v311_mixed_sequence.
+
+(* BOTH SIDES PUBLISHING, any mix of QoS 0 / 1 / 2 (Conn/PairSeqMixed2.v): each item of the run names the publishing side; the
+   invariant is [pair_inv] in both directions, and an exchange in one direction keeps the other direction's because a sender's
+   calls leave its own handled set alone and a receiver's calls leave its own allocator, store and awaited sets alone *)
+Theorem C01_two_way_mixed_sequence_exactly_once : forall gA gB l a b,
+  pair_inv2 gA gB a b -> Forall (fun i => v311_any (item_pkt i)) l ->
+  match run_mixed2 gA gB a b l with
+  | Done2 a' b' dB dA => dB = fromA l /\ dA = fromB l /\ pair_inv2 gA gB a' b'
+  | AppPre2 => True
+  | Fail2 => False
+  end.
+Proof. exact run_mixed2_ok. Qed.
+Print Assumptions C01_two_way_mixed_sequence_exactly_once.
+
+Theorem C01_two_way_qos0_sequence_completes : forall gA gB l a b,
+  pair_inv2 gA gB a b -> Forall (fun i => v311_pub (item_pkt i) 0) l ->
+  exists a' b', run_mixed2 gA gB a b l = Done2 a' b' (fromA l) (fromB l) /\ pair_inv2 gA gB a' b'.
+Proof. exact run_mixed2_qos0_completes. Qed.
+Print Assumptions C01_two_way_qos0_sequence_completes.
+
+Theorem C01_fresh_v311_two_way_mixed_sequence : forall gA gB cn ca l,
+  1 <= g_idmax gA -> 1 <= g_idmax gB -> role_client_ok gA = true -> role_server_ok gB = true ->
+  k_type cn = T_CONNECT -> k_ver cn = V311 -> k_flag cn = true ->
+  k_type ca = T_CONNACK -> k_ver ca = V311 -> k_rc ca = 0 -> k_flag ca = false ->
+  Forall (fun i => v311_any (item_pkt i)) l ->
+  let A0 := set_auto_pub (conn_new gA V311) true in
+  let B0 := set_auto_pub (conn_new gB V311) true in
+  exists A1 e1 B1 e2 B2 e3 A2 e4,
+    step gA A0 (OSend cn) = Ok (A1, e1, []) /\ sends e1 = [cn] /\
+    deliver gB B0 cn = Ok (B1, e2) /\ notifies e2 = [cn] /\
+    step gB B1 (OSend ca) = Ok (B2, e3, []) /\ sends e3 = [ca] /\
+    deliver gA A1 ca = Ok (A2, e4) /\ notifies e4 = [ca] /\
+    errors e1 = [] /\ errors e2 = [] /\ errors e3 = [] /\ errors e4 = [] /\
+    match run_mixed2 gA gB A2 B2 l with
+    | Done2 A3 B3 dB dA => dB = fromA l /\ dA = fromB l /\ pair_inv2 gA gB A3 B3
+    | AppPre2 => True
+    | Fail2 => False
+    end.
+Proof. exact fresh_v311_two_way_mixed_sequence. Qed.
+Print Assumptions C01_fresh_v311_two_way_mixed_sequence.
 
 (* ... and the same for v5.0 (no topic alias in play; Receive Maximum and Maximum Packet Size negotiated): the pair
    invariant now says that BOTH Receive Maximum accounts are at zero between exchanges — every slot an exchange takes
@@ -1236,3 +1276,26 @@ Example C01_pair_mixed_sequence_nonvacuous :
   | _, _ => False
   end.
 Proof. split; [repeat constructor; unfold v311_any, v311_pub; cbn; tauto|]. vm_compute. repeat split; reflexivity. Qed.
+
+(* ... and the two-way one: both sides publish, QoS 0 in between, identifier 1 in use on both sides independently *)
+Example C01_two_way_mixed_sequence_nonvacuous :
+  let gs := mkCfg RClient 65535 2 in
+  let gr := mkCfg RServer 65535 2 in
+  let cn := mkPkt 1 V311 0 0 false false [] None 0 0 14 false 0 true 0 None None None None None in
+  let ca := mkPkt 2 V311 0 0 false false [] None 0 0 4 true 0 false 0 None None None None None in
+  let ops_s := [OSetAutoPub true; OSend cn; ORecv [32;2;0;0] (PROk ca)] in
+  let ops_r := [OSetAutoPub true; ORecv [16;12;0;4;77;81;84;84;4;2;0;0;0;0] (PROk cn); OSend ca] in
+  let pb := fun id q pay => mkPkt 3 V311 id q false false [116] None pay 0 (7 + pay) false 0 false 0 None None None None None in
+  let p0 := fun pay => mkPkt 3 V311 0 0 false false [116] None pay 0 (5 + pay) false 0 false 0 None None None None None in
+  let l := [FromA (p0 2); FromB (pb 1 2 0); FromA (pb 1 2 3); FromB (p0 0); FromB (pb 1 1 4); FromA (pb 1 1 1); FromA (p0 1)] in
+  match run_state gs (conn_new gs V311) ops_s, run_state gr (conn_new gr V311) ops_r with
+  | Some a, Some b =>
+      match run_mixed2 gs gr a b l with
+      | Done2 a' b' dB dA => dB = [p0 2; pb 1 2 3; pb 1 1 1; p0 1] /\ dA = [pb 1 2 0; p0 0; pb 1 1 4] /\
+                             c_qos2 a' = [] /\ c_qos2 b' = [] /\ c_store a' = [] /\ c_store b' = [] /\
+                             a_pool (c_pid a') = [(1, 65535)] /\ a_pool (c_pid b') = [(1, 65535)]
+      | _ => False
+      end
+  | _, _ => False
+  end.
+Proof. vm_compute. repeat split; reflexivity. Qed.
